@@ -273,6 +273,23 @@ Theorem elementwise_add_sub_per_tensor_partial :
     (dy_ltb ifm ifm2 = false -> ifm_gets_opa smode rev = false /\ t1 = (2 ^ 30, 0)).
 Proof. exact ew_per_tensor_lemma. Qed.
 
+(* ---- the requantisation scale of QUANTIZE (generate_ofm_scaling_for_pooling, branch fused_quantize) ---- *)
+(* PARTIAL (hand model of the float expression, tied by correspondence at the call site and by the OFM_SCALE in force
+   in compiled networks): the quotient of the widened scales, quantised, is the reference's QuantizeMultiplier pair
+   (quantize.cc: double(input scale) / double(output scale)) ... *)
+Theorem fused_quantize_eq_reference_partial :
+  forall ifm ofm, 0 < dm ifm -> 0 < dm ofm ->
+    let v := fused_quantize_scale 53 ifm ofm in
+    fst v <> 0 -> snd v <= 62 -> same_value v (tfl_requantize_params ifm ofm) 0.
+Proof. exact fused_quantize_eq_reference_lemma. Qed.
+
+(* ... and the quotient formed in float32 is not *)
+Theorem fused_quantize_float32_quotient_refuted :
+  exists ifm ofm, 0 < dm ifm /\ 0 < dm ofm /\
+    fused_quantize_scale 53 ifm ofm = (1784628124, 33) /\ tfl_requantize_params ifm ofm = (1784628124, -2) /\
+    fused_quantize_scale 24 ifm ofm = (1784628096, 33).
+Proof. exact fused_quantize_float32_quotient_refuted_lemma. Qed.
+
 (* ---- packed scale records of CONV_2D / DEPTHWISE_CONV_2D / FULLY_CONNECTED (weight_compressor) ---- *)
 (* PARTIAL in the same sense as the elementwise theorems (hand model of _prepare_scale_and_bias's float
    expression, tied by reading the records back from compiled networks: tools/checks/c09.py section G).
@@ -312,3 +329,5 @@ Print Assumptions conv_packed_eq_reference_partial.
 Print Assumptions conv_packed_reduced_eq_reference_partial.
 Print Assumptions elementwise_add_sub_operand_choice.
 Print Assumptions elementwise_add_sub_per_tensor_partial.
+Print Assumptions fused_quantize_eq_reference_partial.
+Print Assumptions fused_quantize_float32_quotient_refuted.
